@@ -49,10 +49,53 @@ def scopedName : List SExp → Option String
     (sequenceOpt (parts.map fun | .atom a => some a | _ => none)).bind fun parts =>
       if parts.isEmpty then none else some ("::".intercalate parts)
 
+def hexNat? (s : String) : Option Nat :=
+  if s.startsWith "0x" then
+    (s.drop 2).toString.toList.foldl (fun acc c => match acc, hexDigit? c with
+      | some a, some d => some (a * 16 + d)
+      | _, _ => none) (some 0)
+  else none
+
+def hexFixed (width n : Nat) : String :=
+  String.ofList ((List.range width).reverse.map fun i => hexNibble ((n / 16 ^ i) % 16))
+
+/-- `(lit k v)` of the request syntax -/
+def toLit (k v : String) : Option Lit :=
+  let int (kind : LitKind) : Option Lit := (if v.isEmpty then none else v.toNat?).map fun n => ⟨kind, false, n⟩
+  let flt (kind : LitKind) (width : Nat) : Option Lit :=
+    (hexNat? v).map fun b => ⟨kind, b / 2 ^ (width - 1) % 2 == 1, b % 2 ^ (width - 1)⟩
+  match k with
+  | "b" => int .Bool
+  | "i" => int .IntUntyped
+  | "u" => int .IntUnsigned32
+  | "ul" => int .IntUnsigned64
+  | "l" =>
+    if v.startsWith "-" then ((v.drop 1).toString.toNat?).map fun n => ⟨.IntSigned64, true, n⟩ else int .IntSigned64
+  | "f" => flt .FloatUntyped 64
+  | "h" => flt .Float16 32
+  | "f32" => flt .Float32 32
+  | "f64" => flt .Float64 64
+  | "s" => some ⟨.String, false, 0⟩
+  | _ => none
+
+def showLit (l : Lit) : String :=
+  let flt (k : String) (width : Nat) := k ++ " 0x" ++ hexFixed (width / 4) (l.mag + (if l.neg then 2 ^ (width - 1) else 0))
+  match l.kind with
+  | .Bool => "b " ++ toString l.mag
+  | .IntUntyped => "i " ++ toString l.mag
+  | .IntUnsigned32 => "u " ++ toString l.mag
+  | .IntUnsigned64 => "ul " ++ toString l.mag
+  | .IntSigned64 => "l " ++ (if l.neg then "-" else "") ++ toString l.mag
+  | .FloatUntyped => flt "f" 64
+  | .Float16 => flt "h" 32
+  | .Float32 => flt "f32" 32
+  | .Float64 => flt "f64" 64
+  | .String => "s ?"
+
 mutual
 /-- `none` = malformed; `some none` = a node kind outside the model -/
 partial def toExpr : SExp → Option (Option Expr)
-  | .list (.atom "lit" :: [.atom k, .atom v]) => some (some (.lit (k ++ " " ++ v)))
+  | .list (.atom "lit" :: [.atom k, .atom v]) => (toLit k v).map fun l => some (.lit l)
   | .list (.atom "id" :: parts) => (scopedName parts).map fun n => some (.id n)
   | .list [.atom "un", .atom op, x] =>
     match UnOp.ofName? op, toExpr x with
@@ -102,7 +145,7 @@ def showName (n : String) : String := " ".intercalate ((if n.startsWith "::" the
 
 mutual
 def showExpr : Expr → String
-  | .lit n => "(lit " ++ n ++ ")"
+  | .lit l => "(lit " ++ showLit l ++ ")"
   | .id n => "(id " ++ showName n ++ ")"
   | .un op x => "(un " ++ op.name ++ " " ++ showExpr x ++ ")"
   | .bin op l r => "(bin " ++ op.name ++ " " ++ showExpr l ++ " " ++ showExpr r ++ ")"
@@ -129,9 +172,9 @@ def templateShape : List Tok → Bool
 /-- adjacent pieces the lexer reads differently from the printed tokens: an untyped integer literal directly
 followed by `.` starts a float literal (`3.m` is rejected by the lexer) -/
 def gluedIntPeriod : List Piece → Bool
-  | .t (.lit n) _ :: .t (.p .Period) _ :: .t (.id m) s :: rest =>
+  | .t (.lit l) _ :: .t (.p .Period) _ :: .t (.id m) s :: rest =>
     -- `literal_float` gives the characters back when the "suffix" starts with `x` (a swizzle on an integer)
-    (n.startsWith "i " && !m.startsWith "x") || gluedIntPeriod (.t (.id m) s :: rest)
+    (l.kind == .IntUntyped && !m.startsWith "x") || gluedIntPeriod (.t (.id m) s :: rest)
   | _ :: rest => gluedIntPeriod rest
   | [] => false
 
@@ -154,7 +197,8 @@ def handle (op : String) (args : List String) : String :=
       | some (pieces, term) =>
         let ts := toks pieces
         if templateShape ts then "unsupported template-argument attempt" else
-        if gluedIntPeriod pieces then render pieces ++ " ==> ERR:lex" else
+        if gluedIntPeriod pieces || ts.any (fun t => match t with | .lit l => litTooLarge l | _ => false)
+        then render pieces ++ " ==> ERR:lex" else
         let back := match parseAll term ts with
           | some (e', []) => showExpr e'
           | _ => "ERR:parse"
